@@ -356,7 +356,10 @@ func (v *fnVC) calleeFrameCheck(con *Contract, env *Env, key string, pos token.P
 		case strings.HasPrefix(m, "map("):
 			ex, _ := parseExpr(m[4 : len(m)-1])
 			t, _ := v.tr(ex, env)
-			v.frameCheck(t, key+": "+m, pos)
+			if alts, ok := v.frameAlts(t); ok {
+				// a nil map is never written (the callee allocates a new one)
+				v.oblige("frame.store", key+": "+m, or(append([]T{eq(t, "0")}, alts...)...), pos)
+			}
 		case strings.HasPrefix(m, "tree("):
 			ex, _ := parseExpr(m[5 : len(m)-1])
 			t, _ := v.tr(ex, env)
@@ -440,7 +443,7 @@ func (v *fnVC) applyModifies(con *Contract, env *Env) {
 			v.leafSorts(et, ms)
 			for k := range ms {
 				base := app("sbase", t)
-				items = append(items, item{k, func(a T) T { return eq(app("ebase", a), base) }})
+				items = append(items, item{k, func(a T) T { return and(eq(app("akind", a), "(- 1)"), eq(app("ebase", a), base)) }})
 			}
 			continue
 		}
@@ -686,6 +689,9 @@ func (v *fnVC) namesAt(b *ssa.BasicBlock) map[string]ssa.Value {
 			}
 			if dr, ok := in.(*ssa.DebugRef); ok {
 				if obj := drObject(dr); obj != nil {
+					if vr, ok := obj.(*types.Var); ok && vr.IsField() {
+						continue // a struct field selected in an expression, not a local variable
+					}
 					if dr.IsAddr {
 						out["&"+obj.Name()] = dr.X
 					} else {
@@ -772,7 +778,7 @@ func (v *fnVC) loopHead(li *loopInfo, preds []*ssa.BasicBlock, conds []T) {
 		for n, val := range names {
 			if strings.HasPrefix(n, "&") {
 				pt := val.Type().Underlying().(*types.Pointer).Elem()
-				env.addrVars = append(env.addrVars, addrVar{n[1:], v.val(val), pt})
+				env.addrVars = append(env.addrVars, addrVar{n[1:], v.val(val), pt, v.spaceOf(val)})
 			}
 		}
 		for _, phi := range phis {
@@ -867,6 +873,7 @@ func (v *fnVC) loopHead(li *loopInfo, preds []*ssa.BasicBlock, conds []T) {
 		for _, k := range ks {
 			v.cur[k] = v.newConst(k, fmt.Sprintf("(Array Int %s)", v.memSrt[k]))
 		}
+		v.loopFrame(ks)
 	}
 	v.allocGrow()
 	for _, phi := range phis {
